@@ -560,8 +560,37 @@ def _chunks(lst, n):
     return [lst[i:i + n] for i in range(0, len(lst), n)]
 
 
+def _run_all(units):
+    """every unit in its own forked process (gen_io.run_units); a unit whose process dies (GLPK aborts on control characters
+    in names) is split into single cases and re-run, the culprit becomes a failure -> (results, crash failures)"""
+    res = gen_io.run_units(_dispatch, units)
+    out, retry, crashes = [], [], []
+    for (kind, a), r in zip(units, res):
+        if not isinstance(r, gen_io.Crashed):
+            out.append(r)
+        elif kind == "models" and len(a[0]) > 1:
+            retry.extend(("models", ([c], a[1])) for c in a[0])
+        else:
+            retry.append((kind, a))
+    if retry:
+        for (kind, a), r in zip(retry, gen_io.run_units(_dispatch, retry)):
+            if not isinstance(r, gen_io.Crashed):
+                out.append(r)
+                continue
+            if kind == "models":
+                fam, seed, idx = a[0][0]
+                key = "sbml:id-digits-escape" if fam == "digits" else "sbml:process-aborted"
+                crashes.append({"key": key, "failure": f"the process checking model ({fam}, {seed}, {idx}) died with exit code "
+                                                       f"{r.exitcode} (GLPK aborts on names with control characters)",
+                                "replay": {"kind": "model", "family": fam, "seed": seed, "index": idx, "key": key}})
+            else:
+                crashes.append({"key": "sbml:process-aborted", "failure": f"the process checking {kind} {a!r:.200} died with exit "
+                                                                          f"code {r.exitcode}",
+                                "replay": {"kind": kind, "file": a[0] if kind == "file" else None, "key": "sbml:process-aborted"}})
+    return out, crashes
+
+
 def run(tier: str, seed: int) -> dict:
-    import multiprocessing as mp
     import random
     _quiet()
     t0 = time.time()
@@ -580,11 +609,10 @@ def run(tier: str, seed: int) -> dict:
     units += [("models", (c, tier)) for c in _chunks(cases, 6)]
     files = shipped_files(tier)
     units = [("file", (str(p),)) for p in files] + units          # the big files first
-    ctx = mp.get_context("fork")
-    with ctx.Pool(min(16, os.cpu_count() or 1)) as pool:
-        res = list(pool.imap_unordered(_dispatch, units, chunksize=1))
+    res, crashes = _run_all(units)
     counts = {"escaper_checks": 0, "models": 0, "model_checks": 0, "file_checks": 0, "files_checked": [], "files_skipped": {}}
     fails, samples = [], []
+    fails.extend(crashes)
     for r in res:
         fails.extend(r["fails"])
         if r["kind"] == "escapers":
@@ -638,9 +666,8 @@ def run(tier: str, seed: int) -> dict:
     }
 
 
-def replay(payload_replay: dict):
+def _replay_inner(p):
     _quiet()
-    p = payload_replay
     if p["kind"] == "escaper":
         return check_escaper(p["pair"], p["id"])
     if p["kind"] == "model":
@@ -648,7 +675,7 @@ def replay(payload_replay: dict):
         tmp = _tmpdir()
         try:
             _, fails = check_model(model, [p.get("channel", "string")] if p.get("channel") in CHANNELS else CHANNELS,
-                                   [p.get("mode", "default")], tmp, "replay", replay_base={})
+                                   [p["mode"]] if p.get("mode") else ["default"], tmp, "replay", replay_base={})
         finally:
             shutil.rmtree(tmp, ignore_errors=True)
         hit = [f for f in fails if f["key"] == p.get("key")] or fails
@@ -658,3 +685,11 @@ def replay(payload_replay: dict):
         hit = [f for f in fails if f["key"] == p.get("key")] or fails
         return hit[0]["failure"] if hit else None
     raise ValueError(f"unknown replay kind {p['kind']!r}")
+
+
+def replay(payload_replay: dict):
+    """runs in a forked child: a replayed case may abort the process (see _run_all)"""
+    r = gen_io.run_units(_replay_inner, [payload_replay], nproc=1)[0]
+    if isinstance(r, gen_io.Crashed):
+        return f"the checking process died with exit code {r.exitcode}"
+    return r
